@@ -14,7 +14,7 @@
    rendering of the error payload (Model/Heap.get_as_cell: NoFuel on circular data and
    panic sites 10/13/14 on an ill-formed machine are C06's display_err_total).      *)
 From MW Require Import Model.Base Model.F64 Model.Num Model.Datum Model.TransformDef
-  Model.VmTypes Model.Heap Model.VmBase Model.ListVec Model.ListVecSpec Proofs.ListVecProofs.
+  Model.VmTypes Model.Heap Model.VmBase Model.ListVec Model.PreludeLists Model.ListVecSpec Proofs.ListVecProofs.
 Open Scope N_scope.
 
 (* ------------------------------------------------------------------ car cdr *)
@@ -408,6 +408,75 @@ Theorem C14_identity_vector : forall s args,
       exists r t', vector_ref t = ROk r t' /\ absv t' r = absv s a.
 Proof. exact vector_then_ref. Qed.
 Print Assumptions C14_identity_vector.
+
+(* ======================================================================== OPEN *)
+(* Statements that are NOT proved yet.  They are kept here at full strength so that
+   what is claimed above cannot be mistaken for the whole of C14; each is exercised by
+   the correspondence check and the reference-store oracle only. *)
+
+(* OPEN: append — a newly allocated list holding the elements of all arguments but the
+   last, sharing its tail with the last argument; an improper list among the copied
+   arguments is an error; no existing object changes *)
+Definition append_refines_stmt : Prop :=
+  forall fuel s (lists : list vcell) (last : vcell) (xss : list (list aval)),
+  values_are_refs s -> Forall (val_ok s) lists -> val_ok s last ->
+  called_with s (lists ++ [last]) ->
+  Forall2 (fun l xs => achain (abs s) (absv s l) xs (AImm VNil) /\ (length xs + 1 < fuel)%nat) lists xss ->
+  exists r s' locs, call_builtin (append fuel) s = ROk r s' /\
+    aprefix (abs s') (absv s' r) locs (concat xss) (absv s last) /\ fresh_in s locs /\
+    pres s s' /\ values_are_refs s' /\ val_ok s' r.
+
+Definition append_improper_stmt : Prop :=
+  forall fuel s (lists : list vcell) (last : vcell),
+  values_are_refs s -> Forall (val_ok s) lists -> val_ok s last ->
+  called_with s (lists ++ [last]) ->
+  (exists l xs e, In l lists /\ achain (abs s) (absv s l) xs e /\ e <> AImm VNil /\
+                  (length xs + 1 < fuel)%nat) ->
+  Forall (fun l => exists xs e, achain (abs s) (absv s l) xs e /\ (length xs + 1 < fuel)%nat) lists ->
+  render_fail (call_builtin (append fuel) s).
+
+(* OPEN: equal_spec — on finite plain data (adatum: n bounds the depth) with interned
+   symbols, equal? decides structural equality [aequal]; fuel = a function of the bound *)
+Definition equal_spec_stmt : Prop :=
+  forall s l r n fuel,
+  values_are_refs s -> sym_interned s -> val_ok s l -> val_ok s r ->
+  adatum s (absv s l) n -> adatum s (absv s r) n -> (2 * n + 2 < fuel)%nat ->
+  exists b, equal fuel l r s = ROk b s /\ (b = true <-> aequal s (absv s l) (absv s r)).
+
+(* OPEN: list? — #t exactly for finite chains ending in (), #f for other finite chains,
+   and (fix F11) #f for circular lists, with a fuel proportional to the number of pairs *)
+Definition is_list_spec_stmt : Prop :=
+  forall fuel s v xs e,
+  values_are_refs s -> val_ok s v -> called_with s [v] ->
+  achain (abs s) (absv s v) xs e -> (length xs + 1 < fuel)%nat ->
+  exists s', is_list fuel s = ROk (VBool (match e with AImm VNil => true | _ => false end)) s' /\
+             hp s' = hp s /\ st s' = st s.
+
+Definition is_list_circular_stmt : Prop :=
+  forall s v (cells : nat -> N * N),
+  values_are_refs s -> val_ok s v -> called_with s [v] ->
+  (* an infinite chain of pair cells: v, then the cdr of each *)
+  (forall k, exists a d, cells k = (a, d) /\
+     heap_deref (hp s) (match k with O => v | S j => VPtr (snd (cells j)) end) = Ok (VPair a d)) ->
+  exists fuel0, forall fuel, (fuel0 <= fuel)%nat ->
+    exists s', is_list fuel s = ROk (VBool false) s'.
+
+(* OPEN (hand model of prelude.scm:147-258, Model/PreludeLists.v; to be re-stated over the
+   generated prelude run by the VM model): the Scheme-defined list procedures *)
+Definition prelude_length_stmt : Prop :=
+  forall fuel s v xs e,
+  values_are_refs s -> val_ok s v -> achain (abs s) (absv s v) xs e ->
+  (length xs + 1 < fuel)%nat ->
+  (e = AImm VNil -> exists s', MW.Model.PreludeLists.p_length fuel [v] s =
+                               ROk (VNum (Fixnum (Z.of_nat (length xs)))) s' /\ pres s s') /\
+  (e <> AImm VNil -> render_fail (MW.Model.PreludeLists.p_length fuel [v] s)).
+
+Definition prelude_list_stmt : Prop :=
+  forall s args,
+  values_are_refs s -> Forall (val_ok s) args ->
+  exists r s' locs, MW.Model.PreludeLists.p_list args s = ROk r s' /\
+    aprefix (abs s') (absv s' r) locs (map (absv s) args) (AImm VNil) /\ fresh_in s locs /\
+    pres s s' /\ values_are_refs s'.
 
 (* ----------------------------------------------------------------- non-vacuity *)
 (* the hypotheses are satisfiable: the empty machine satisfies the invariant, and the
